@@ -33,6 +33,16 @@ def gen_lines(rng, impl, tier):
         lines.append('ssl2chenc %s %s %s' % (ck, framegen.rnd_bytes(rng, rng.choice([0, 0, 8, 16, 32])).hex() or '-', framegen.rnd_bytes(rng, rng.choice([16, 24, 32])).hex()))
         lines.append('ssl2shenc %d 1 %s %s %s' % (rng.randint(0, 1), framegen.rnd_bytes(rng, rng.choice([0, 1, 300])).hex() or '-', ck,
                                                  framegen.rnd_bytes(rng, rng.choice([0, 16, 32])).hex() or '-'))
+    # CertificateRequest (RFC 5246 7.4.4 with, RFC 2246 / 4346 without supported_signature_algorithms) and CertificateStatus
+    # (RFC 6066 8): known and unknown certificate types, signature schemes incl. unknown ones, 0..3 distinguished names
+    ctypes = [v for _, v in dict(gen_tables.local_int_enums())['TlsClientCertificateType']]
+    sigs = tlsgen.codes_of('TlsSignatureAndHashAlgorithmFactory')
+    for _ in range(max(20, n // 3)):
+        ts = ','.join(str(rng.choice(ctypes)) for _ in range(rng.choice([1, 1, 2, 5])))
+        sa = '_' if rng.random() < 0.35 else ','.join(str(rng.choice(sigs + [0x0909, 0xfefe])) for _ in range(rng.choice([1, 2, 9])))
+        cas = ','.join(framegen.rnd_bytes(rng, rng.choice([1, 2, 30, 300])).hex() for _ in range(rng.choice([0, 0, 1, 3]))) or '-'
+        lines.append('certreqenc %s %s %s' % (ts, sa, cas))
+        lines.append('certstenc 1 %s' % framegen.rnd_bytes(rng, rng.choice([1, 2, 5, 300, 70000 if rng.random() < 0.1 else 9])).hex())
     lines += ['shdenc', 'ccsenc', 'recenc 22 771 ' + '00' * 65535, 'recenc 22 771 ' + '00' * 65536]
     # vectors at their floor / ceiling
     for kind, w, lo, hi in (('G', 2, 1, 32766), ('P', 1, 1, 255), ('S', 2, 1, 32766), ('V', 2, 1, 127), ('K', 1, 1, 255)):
@@ -84,10 +94,16 @@ def run(chk):
             if o.startswith('OK '):
                 dec_lines.append('chdec ' + o[3:])
                 dec_lines.append('chdec ' + o[3:] + framegen.rnd_bytes(rng, 2).hex())
+        for l, m in zip(lines, model_out):
+            if l.startswith('certreqenc') and m.startswith('OK '):
+                w = '0' if l.split(' ')[2] == '_' else '1'
+                dec_lines += ['certreqdec %s %s' % (w, m[3:]), 'certreqdec %s %s' % (w, m[3:] + framegen.rnd_bytes(rng, 3).hex())]
+            elif l.startswith('certstenc') and m.startswith('OK '):
+                dec_lines += ['certstdec ' + m[3:], 'certstdec ' + m[3:] + '0b000000']
         m2 = common.run_model(dec_lines)
         i2 = [impl.impl_line(l) for l in dec_lines]
         for l, m, i in [(l, m, i) for l, m, i in zip(dec_lines, m2, i2) if m != i][:5]:
-            chk.violation('parsing an RFC-conformant client hello does not recover the encoded fields: implementation %s, specification %s' % (i[:160], m[:160]),
+            chk.violation('parsing an RFC-conformant client hello / certificate request / certificate status does not recover the encoded fields: implementation %s, specification %s' % (i[:160], m[:160]),
                           {'cmd': l, 'impl': i, 'spec': m}, None, True)
     else:
         chk.violation('model runner does not build: %s' % br.failed_file, {'error': br.error}, None, False)
@@ -96,7 +112,7 @@ def run(chk):
     chk.coverage['traces_validated_against_impl'] = len(lines) + len(dec_lines)
     chk.coverage['rule'] = ('SSL 2.0 client and server hellos (composed from field values, compared with the specification, parsed back and compared with the values); client hellos (all versions; known / unknown / GREASE / signalling suites; 1-6 extensions of nine typed kinds plus '
                             'unknown, GREASE and empty-payload extensions; session ids of 0/16/32 bytes), server hellos, certificate chains, '
-                            'records, alerts, CCS, ServerHelloDone and the payloads of supported_groups, ec_point_formats, supported_versions, '
+                            'certificate requests (with and without signature algorithms), certificate status, records, alerts, CCS, ServerHelloDone and the payloads of supported_groups, ec_point_formats, supported_versions, '
                             'signature_algorithms, ALPN, SNI, psk modes, record size limit, renegotiation info (also at the floor and ceiling of '
                             'their vectors): the implementation composes from the field values, the Coq specification (written from the RFCs) '
                             'encodes the same values, and the bytes must be identical; specification-encoded hellos are parsed by the '
@@ -104,7 +120,7 @@ def run(chk):
     for i in range(0, len(lines), max(1, len(lines) // 10)):
         chk.sample({'cmd': lines[i][:160], 'outcome': impl_out[i][:120]})
     chk.assumptions += ['the specification is a transcription of the RFCs from memory, validated against the implementation and proved coherent (decode after encode)',
-                        'SSL 2.0 CLIENT-MASTER-KEY and later messages, key_share, status_request, SCT, token binding and certificate request are not yet in the specification']
+                        'SSL 2.0 CLIENT-MASTER-KEY and later messages, key_share, status_request, SCT, token binding, ServerKeyExchange parameters and HelloRetryRequest are not yet in the specification']
 
 
 def replay(path):
